@@ -74,6 +74,8 @@ KINDS = {
                   "hcfg": tlcgraph.harness_cfg_unmanaged},
     "syncmgr": {"spec": "SyncManagers.tla", "monitor": "SyncMgrObs.tla", "base": configs.MBASE, "hcfg": tlcgraph.harness_cfg_syncmgr,
                 "binary": "xh"},
+    "redismgr": {"spec": "RedisManager.tla", "monitor": "RedisObs.tla", "base": configs.RBASE, "hcfg": tlcgraph.harness_cfg_redismgr,
+                 "binary": "xh"},
     "sync": {"spec": "SyncWrapper.tla", "monitor": "SyncObs.tla", "base": configs.SBASE, "hcfg": tlcgraph.harness_cfg_sync},
 }
 
@@ -246,7 +248,7 @@ def managed_check(pid, tier, seed):
         kind = opts.get("kind", spec.get("kind", "managed"))
         struct = configs.STRUCT if kind == "managed" else configs.USTRUCT
         preds = opts.get("preds", spec["preds"])
-        threads = 4 if kind in ("sync", "syncmgr") else None
+        threads = 4 if kind in ("sync", "syncmgr", "redismgr", "pgmgr") else None
         log("[%s] config %s: TLC%s ..." % (pid, name, " + tour + replay" if replay else " (model checking only)"))
         info = run_config(pid, name, consts, struct + opts.get("invariants", spec["invariants"]), opts.get("actprops", spec["actprops"]),
                           workdir, obs_sample=spec.get("obs_sample", {}).get(tier, 50), replay=replay, kind=kind,
